@@ -501,6 +501,9 @@ func fieldOf(base *Expr, name string) *Expr {
 			alts = append(alts, fieldOf(a, name))
 		}
 		return mkPhi(alts)
+	case "loop":
+		// the cell's own value from the previous iteration: so is the field's
+		return base
 	case "zero":
 		return &Expr{Op: "zero", Name: base.Name + "." + name}
 	case "global":
@@ -1012,6 +1015,7 @@ func (w *World) outFields(fn *ssa.Function, ai int) (map[int][]*Expr, bool) {
 		return sum.fields, true
 	}
 	stores := map[int][]*ssa.Store{}
+	nested := false
 	for _, r := range *refs {
 		switch x := r.(type) {
 		case *ssa.FieldAddr:
@@ -1036,12 +1040,71 @@ func (w *World) outFields(fn *ssa.Function, ai int) (map[int][]*Expr, bool) {
 		case *ssa.UnOp: // whole-struct load
 		case *ssa.DebugRef:
 		case *ssa.BinOp: // nil comparison
+		case *ssa.Call:
+			// handed on to another in-scope function that itself only loads and stores fields through it
+			h := x.Call.StaticCallee()
+			if h == nil || !w.inSet[h] || len(h.Blocks) == 0 {
+				return nil, false
+			}
+			args := x.Call.Args
+			okArg := false
+			for aj, a := range args {
+				if a != ssa.Value(p) {
+					continue
+				}
+				if aj >= len(h.Params) {
+					return nil, false
+				}
+				if _, ok := w.outFields(h, aj); !ok {
+					return nil, false
+				}
+				okArg = true
+			}
+			if !okArg {
+				return nil, false
+			}
+			nested = true
 		default:
 			return nil, false
 		}
 	}
 	fields := map[int][]*Expr{}
 	b := w.builderFor(fn)
+	if nested {
+		// the final content of each field at the function's (success) returns, by reaching definitions over the cells of
+		// *p (direct stores and the calls it was handed on to, in program order); a field still holding what the caller
+		// handed in is "left alone"
+		st, ok := deref(p.Type()).Underlying().(*types.Struct)
+		if !ok {
+			return nil, false
+		}
+		rets := Returns(fn)
+		if ErrIndex(fn) >= 0 {
+			if sr := w.SuccessReturns(fn); len(sr) > 0 {
+				rets = sr
+			}
+		}
+		for fi := 0; fi < st.NumFields(); fi++ {
+			var alts []*Expr
+			changed := false
+			for _, ret := range rets {
+				e := b.rd.at(ret, p, []int{fi})
+				for _, a := range e.Alts() {
+					if a.Op == "field" && a.Name == st.Field(fi).Name() && len(a.Args) == 1 && a.Args[0].Op == "param" && a.Args[0].Name == p.Name() {
+						alts = append(alts, nil)
+					} else {
+						alts = append(alts, a)
+						changed = true
+					}
+				}
+			}
+			if changed {
+				fields[fi] = alts
+			}
+		}
+		sum.ok, sum.fields = true, fields
+		return fields, true
+	}
 	for fi, sts := range stores {
 		var alts []*Expr
 		isStore := map[ssa.Instruction]bool{}
